@@ -747,6 +747,60 @@ def eff_min_separation(kind, p, finder):
     return float(finder.min_separation)
 
 
+def _first_moment_centroid(c):
+    """(x, y) centre of mass of a non-negative cutout in cutout coordinates (NaN propagates)"""
+    yy, xx = np.mgrid[0:c.shape[0], 0:c.shape[1]]
+    with np.errstate(all='ignore'):
+        tot = c.sum()
+        return (c * xx).sum() / tot, (c * yy).sum() / tot
+
+
+def recompute_centroid(kind, finder, data, xp, yp):
+    """The centroid the finder documents for a source detected at the integer pixel (xp, yp),
+    recomputed from the image alone:
+      StarFinder: first moments of the kernel-sized window centred on the peak, TRIMMED at the frame,
+                  negative pixels set to 0, plus the window origin;
+      IRAFStarFinder: first moments of the kernel-sized window (zero-padded outside of the frame) after
+                  subtraction of the mean of the window pixels outside of the kernel footprint, restricted
+                  to the footprint, negatives set to 0, plus (peak - kernel radius).
+    -> (x, y) or None when not applicable (DAOStarFinder: marginal Gaussian fits, not recomputed)."""
+    data = np.asarray(data, float)
+    ny, nx = data.shape
+    xp, yp = int(xp), int(yp)
+    if kind == 'SF':
+        ky, kx = np.asarray(finder.kernel).shape
+        if ky % 2 == 0 or kx % 2 == 0:
+            return None
+        y0, x0 = max(yp - ky // 2, 0), max(xp - kx // 2, 0)
+        y1, x1 = min(yp + ky // 2 + 1, ny), min(xp + kx // 2 + 1, nx)
+        c = data[y0:y1, x0:x1]
+        c = np.where(c < 0, 0.0, c)
+        cx, cy = _first_moment_centroid(c)
+        return cx + x0, cy + y0
+    if kind == 'IRAF':
+        k = finder.kernel
+        m = k.mask.astype(bool)
+        ky, kx = m.shape
+        ry, rx = ky // 2, kx // 2
+        pad = np.zeros((ny + 2 * ry, nx + 2 * rx))
+        pad[ry:ry + ny, rx:rx + nx] = data
+        c = pad[yp:yp + ky, xp:xp + kx]
+        nsky = np.count_nonzero(~m)
+        if nsky == 0:
+            return None
+        with np.errstate(all='ignore'):
+            sky = (c * ~m).sum() / nsky
+            c = (c - sky) * m
+        c = np.where(c < 0, 0.0, c)
+        cx, cy = _first_moment_centroid(c)
+        return cx + xp - rx, cy + yp - ry
+    return None
+
+
+def _close(a, b):
+    return (a != a and b != b) or a == b or abs(a - b) <= 1e-9 * max(1.0, abs(a), abs(b))
+
+
 def oracle_finder(kind, p, data, mask, res):
     """direct property oracles on the output table -> list of (signature, what)"""
     out = []
@@ -834,13 +888,36 @@ def oracle_finder(kind, p, data, mask, res):
                 out.append((f'{who}:brightest', 'a dropped source has a larger flux than a kept one'))
             if any(a < b for a, b in zip(kept, kept[1:])):
                 out.append((f'{who}:brightest', 'kept sources are not in order of decreasing flux'))
-    # centroid within the kernel of a detected peak / supplied position
+    # centroid within the kernel of ITS OWN detected peak / supplied position
     ky, kx = res['kfp'].shape
-    if xypos is not None:
-        for r in g:
-            if not any(abs(r['xcentroid'] - x) <= kx / 2.0 and abs(r['ycentroid'] - y) <= ky / 2.0 for x, y in xypos):
+    ny_, nx_ = np.asarray(data).shape
+    if xypos is not None and member:
+        own = []
+        rest_idx = list(passing)
+        for k in tkeys:
+            j = next(i for i in rest_idx if key([rows[i][jj] for jj in vis]) == k)
+            rest_idx.remove(j)
+            own.append(xypos[j])
+        for r, (x, y) in zip(g, own):
+            if not (abs(r['xcentroid'] - x) <= kx / 2.0 and abs(r['ycentroid'] - y) <= ky / 2.0):
                 out.append((f'{who}:centroid-outside-kernel', 'a reported centroid is not within the kernel '
-                            'footprint of any detected peak'))
+                            f'footprint of its detected peak: centroid ({r["xcentroid"]}, {r["ycentroid"]}), '
+                            f'peak ({x}, {y}), kernel {kx}x{ky}'))
+                break
+            if kind == 'SF' and not (0 <= r['xcentroid'] <= nx_ - 1 and 0 <= r['ycentroid'] <= ny_ - 1):
+                out.append((f'{who}:centroid-outside-image', 'a centre of mass of non-negative in-image pixels lies '
+                            f'outside of the image: ({r["xcentroid"]}, {r["ycentroid"]})'))
+                break
+    # ... and equal to the centroid recomputed independently from the documented cutout (every raw source)
+    if xypos is not None and rows is not None and p.get('xycoords') is None and kind in ('SF', 'IRAF'):
+        for (x, y), r in zip(xypos, rows):
+            rc = recompute_centroid(kind, res['finder'], data, x, y)
+            if rc is None:
+                continue
+            if not (_close(r[0], float(rc[0])) and _close(r[1], float(rc[1]))):
+                out.append((f'{who}:centroid-value', f'the centroid of the source detected at ({x}, {y}) is '
+                            f'({r[0]}, {r[1]}), but the first moments of its documented cutout give '
+                            f'({float(rc[0])}, {float(rc[1])})'))
                 break
     return out
 
@@ -894,6 +971,36 @@ def refine_params(rng, kind, p, rows):
     if rng.random() < 0.45:
         q['brightest'] = rng.randint(1, max(1, len(fin) + 1))
     return q
+
+
+def make_edge_scene(rng, i, half=3):
+    """bright compact sources whose peaks sit 0..half pixels from one edge / corner (cycled by i)"""
+    n = rng.choice([15, 17, 19])
+    ny, nx = n, n + rng.choice([0, 2])
+    yy, xx = np.mgrid[0:ny, 0:nx]
+    img = np.array([[rng.randint(0, 2) for _ in range(nx)] for _ in range(ny)], float)
+    where = ['left', 'right', 'bottom', 'top', 'bl', 'br', 'tl', 'tr'][i % 8]
+    d1, d2 = rng.randint(0, half), rng.randint(0, half)
+    if where in ('left', 'right'):
+        y = rng.randint(half + 1, ny - half - 2)
+        x = d1 if where == 'left' else nx - 1 - d1
+    elif where in ('bottom', 'top'):
+        x = rng.randint(half + 1, nx - half - 2)
+        y = d1 if where == 'bottom' else ny - 1 - d1
+    else:
+        y = d1 if where[0] == 'b' else ny - 1 - d1
+        x = d2 if where[1] == 'l' else nx - 1 - d2
+    srcs = [(y, x)]
+    if rng.random() < 0.5:          # a second source well inside
+        srcs.append((ny // 2, nx // 2))
+    for (y, x) in srcs:
+        s_ = rng.choice([0.9, 1.2, 1.6])
+        # slightly off-centre so that the moment centroid is not the peak pixel itself
+        img += rng.choice([60, 100]) * np.exp(-((xx - x - rng.choice([0, 0.3])) ** 2 +
+                                                 (yy - y - rng.choice([0, -0.3])) ** 2) / (2 * s_ * s_))
+    if rng.random() < 0.3:
+        img -= 1.0
+    return img, where
 
 
 # --------------------------------------------------------------------------
@@ -959,7 +1066,10 @@ def run(ctx):
     ctx.cov['partial_clauses'] = [
         '"refines them with the supplied centroid function": tested (bit-for-bit against the same function on '
         'the independently cut footprint window), not modelled in Coq',
-        '"centroid lies within the kernel of a detected peak": numeric support test on every output row',
+        '"centroid lies within the kernel of a detected peak": tested on every output row against its own peak; '
+        'for IRAFStarFinder and StarFinder the centroid of every raw source is also recomputed independently from '
+        'the documented (trimmed / zero-padded) cutout and must agree to 1e-9; DAOStarFinder marginal fits are not '
+        'recomputed',
         'order among exactly tied values after a top-N selection is numpy\'s; any valid N-highest answer is accepted',
         '"separation satisfies the configured bound": proved up to exact ties of the convolved image '
         '(min_separation_partial); tied peaks inside the separation are a known finding',
@@ -1111,6 +1221,35 @@ def run(ctx):
                                    xin, res['xypos'], scale=4 if xin is not None else 1))
             meta.append(('finder-peaks', d, not errs))
         # K: filters
+        terms.append(coq_filter(kind, p, res))
+        meta.append(('finder-filter', d, not errs))
+
+    # ---------------- sources at the four edges and corners (centroid clause) ----------------
+    n_e = 24 if quick else 240
+    for i in range(n_e):
+        kind = ['DAO', 'IRAF', 'SF'][(i // 8) % 3] if quick else ['DAO', 'IRAF', 'SF'][(i // 8) % 3]
+        data, where = make_edge_scene(rng, i)
+        p = gen_finder_params(rng, kind)
+        p.update(threshold=rng.choice([1.0, 3.0]), exclude_border=bool((i // 4) % 2 if i % 3 else i % 2),
+                 min_separation=rng.choice([0.0, 2.0]) if kind == 'DAO' else rng.choice([2.0, 3.0]))
+        if kind != 'SF':
+            p.update(sharplo=-1e3, sharphi=1e3, roundlo=-1e3, roundhi=1e3)
+        else:
+            p['kernel'] = (rng.choice([5, 7]), rng.choice([5, 7]), rng.choice([1.2, 2.0]))
+        d = dict(describe_finder(kind, p, data, None), where=where)
+        try:
+            res = run_finder(kind, p, data, None)
+        except Exception as e:
+            ctx.violation(f'{kind}:exception:{type(e).__name__}', f'finder raised {e!r}'[:200], d)
+            continue
+        ctx.stat('edge scenes', f'{kind}/{where}/exclude_border={p["exclude_border"]}')
+        ctx.stat('edge scenes result', 'None' if res['table'] is None else 'table')
+        ctx.count_case(d, res['table'] is not None)
+        errs = oracle_finder(kind, p, data, None, res)
+        for sig, what in errs:
+            ctx.violation(sig, what, dict(d, cmd='bin/check C14 --replay <this file>'))
+        if res['rows']:
+            ctx.support('centroid = first moments of the documented cutout (IRAF, StarFinder)', len(res['rows']))
         terms.append(coq_filter(kind, p, res))
         meta.append(('finder-filter', d, not errs))
 
